@@ -44,6 +44,10 @@ Definition apply_call (cfg : Defects) (w : world) (st : state) (touched : bool) 
   else if (m =? 6) || (m =? 7) then (st, res_err E_TM_PERM)
   else if m =? 8 then
     (st, match tm_status_tx (s_tm st) (a, b, c) with Some _ => res_ok 3 | None => res_err E_NO_GLOBAL_ID end)
+  else if m =? 9 then
+    (* an IBTP transaction addressed to another contract: HandleIBTP runs in that contract's storage
+       namespace, finds no bitxhub id there and fails while parsing the service ids *)
+    (st, res_err E_PARSE)
   else (st, res_err E_NO_METHOD).
 
 (** does the transaction create the interchain contract's account object in the ledger *)
@@ -95,7 +99,13 @@ Inductive stl := StlAbort | StlMaps (adds removes : hmap).
 (** is the transaction skipped as invalid / begin-failed (filterValidTx) *)
 Definition tx_skipped (r : txres) : bool := negb (r_ok r) || (r_ret r =? 2) || (r_ret r =? 1).
 
-Definition stl_step (cfg : Defects) (fin : txm) (h : N) (acc : stl) (o : op) (r : txres) : stl :=
+Definition to_remote_hub (w : world) (b : ibtp) : bool :=
+  match svc_lookup w (b_from b), svc_lookup w (b_to b) with
+  | Some sf, Some sd => is_local sf && negb (is_local sd)
+  | _, _ => false
+  end.
+
+Definition stl_step (cfg : Defects) (w : world) (fin : txm) (h : N) (acc : stl) (o : op) (r : txres) : stl :=
   match acc, o with
   | StlAbort, _ => StlAbort
   | StlMaps adds rems, OIbtp b _ =>
@@ -105,6 +115,7 @@ Definition stl_step (cfg : Defects) (fin : txm) (h : N) (acc : stl) (o : op) (r 
           if tx_skipped r then acc
           else if is_request b then
             if (b_T b <=? 0)%Z || (MAXU64 - h <=? u64_of_Z (b_T b)) then acc
+            else if to_remote_hub w b && negb (d_interhub_timeout cfg) then acc
             else StlMaps (hmap_add (h + u64_of_Z (b_T b)) (TTx (b_id b)) adds) rems
           else if is_response b then
             match tm_rec fin (b_id b) with
@@ -118,9 +129,9 @@ Definition stl_step (cfg : Defects) (fin : txm) (h : N) (acc : stl) (o : op) (r 
   | _, _ => acc
   end.
 
-Fixpoint stl_fold (cfg : Defects) (fin : txm) (h : N) (acc : stl) (ops : list op) (rs : list txres) : stl :=
+Fixpoint stl_fold (cfg : Defects) (w : world) (fin : txm) (h : N) (acc : stl) (ops : list op) (rs : list txres) : stl :=
   match ops, rs with
-  | o :: ops', r :: rs' => stl_fold cfg fin h (stl_step cfg fin h acc o r) ops' rs'
+  | o :: ops', r :: rs' => stl_fold cfg w fin h (stl_step cfg w fin h acc o r) ops' rs'
   | _, _ => acc
   end.
 
@@ -144,8 +155,8 @@ Definition apply_removes (t : txm) (rems : hmap) : option txm :=
                    end
                end) rems (Some t).
 
-Definition set_timeout_list (cfg : Defects) (t : txm) (h : N) (ops : list op) (rs : list txres) : option txm :=
-  match stl_fold cfg t h (StlMaps [] []) ops rs with
+Definition set_timeout_list (cfg : Defects) (w : world) (t : txm) (h : N) (ops : list op) (rs : list txres) : option txm :=
+  match stl_fold cfg w t h (StlMaps [] []) ops rs with
   | StlAbort => Some t
   | StlMaps adds rems => apply_removes (apply_adds t adds) rems
   end.
@@ -161,7 +172,18 @@ Definition get_timeout_list (t : txm) (h : N) : list tok :=
 Definition cmap := N -> list txid.
 Definition cmap_add (m : cmap) (k : N) (i : txid) : cmap := upd N.eqb m k (m k ++ [i]).
 
-(** [getTimeoutIBTPsMap] *)
+Fixpoint sort_kids (w : world) (l : list (txid * N)) : list (txid * N) :=
+  match l with
+  | [] => []
+  | p :: r =>
+      (fix ins (x : txid * N) (s : list (txid * N)) : list (txid * N) :=
+         match s with
+         | [] => [x]
+         | y :: t => if id_leb w (fst x) (fst y) then x :: s else y :: ins x t
+         end) p (sort_kids w r)
+  end.
+
+(** [getTimeoutIBTPsMap] (children of a group in the textual order of their ids) *)
 Fixpoint timeout_map (w : world) (t : txm) (l : list tok) (m : cmap) : option cmap :=
   match l with
   | [] => Some m
@@ -175,7 +197,7 @@ Fixpoint timeout_map (w : world) (t : txm) (l : list tok) (m : cmap) : option cm
                                  let i := fst p in
                                  let m1 := cmap_add m (chain_of w (fst (fst i))) i in
                                  if is_final (snd p) then cmap_add m1 (chain_of w (snd (fst i))) i else m1)
-                              (g_children gi) m in
+                              (sort_kids w (g_children gi)) m in
           timeout_map w t r m'
       end
   end.
@@ -207,7 +229,7 @@ Definition exec_block (cfg : Defects) (w : world) (st : state) (ops : list op) :
   match apply_ops cfg w h 0 false st ops with
   | None => None
   | Some (st1, rs) =>
-      match set_timeout_list cfg (s_tm st1) h ops rs with
+      match set_timeout_list cfg w (s_tm st1) h ops rs with
       | None => None
       | Some t2 =>
           let l := get_timeout_list t2 h in
@@ -264,17 +286,6 @@ Definition counter_obs (rs : list txres) : list (N * list (N * N * N)) :=
                                    then [(fst p, 1, if r_batch (snd p) then 1 else 0)] else [])
                                 (combine (seqN 0 (List.length rs)) rs) in
               match l with [] => [] | _ => [(k, l)] end) chain_keys.
-
-Fixpoint sort_kids (w : world) (l : list (txid * N)) : list (txid * N) :=
-  match l with
-  | [] => []
-  | p :: r =>
-      (fix ins (x : txid * N) (s : list (txid * N)) : list (txid * N) :=
-         match s with
-         | [] => [x]
-         | y :: t => if id_leb w (fst x) (fst y) then x :: s else y :: ins x t
-         end) p (sort_kids w r)
-  end.
 
 Definition ic_rows (n : N) (r : icrec) : list (svc * (N * N * N * N)) :=
   flat_map (fun k =>
